@@ -16,7 +16,7 @@ use std::sync::Mutex;
 use std::time::Instant;
 
 pub const POOL_LIMIT: usize = 65535;
-pub const NKINDS: u64 = 27;
+pub const NKINDS: u64 = 28;
 
 struct B {
     ops: Vec<OpRec>,
@@ -373,6 +373,27 @@ pub fn scenario(seed: u64, idx: u64) -> Trace {
             b.restart(&mut rng);
             trace(seed, idx, Init::Foreign(Box::new(spec)), b.ops, &mut rng)
         }
+        // ---- a full pool, slots freed, then strings that already exist re-used before new ones arrive
+        27 => {
+            let spec = pool_image(POOL_LIMIT, false, &mut rng);
+            let nfree = [1i32, 40, 3][(idx / NKINDS % 3) as usize];
+            b.push(Op::Delete { table: "P".into(), cond: Some(Cond::Cmp("K".into(), CmpOp::Le, Val::Int(nfree))) });
+            // (strings of rows 30,001.. are still there: only reference counts change)
+            let reuse: Vec<Vec<Val>> = (0..nfree).map(|i| prow(1_000_100 + i, Val::Str(format!("Q{}Q", 700_000 + 30_000 + i as usize)))).collect();
+            if idx / NKINDS % 2 == 0 {
+                b.push(Op::Insert { table: "P".into(), rows: reuse });
+                b.push(Op::Insert { table: "P".into(), rows: (0..nfree).map(|i| prow(1_000_200 + i, new_str(i as u32))).collect() });
+            } else {
+                // in one batch, given out of key order: new strings first
+                let mut rows: Vec<Vec<Val>> = (0..nfree).map(|i| prow(1_000_200 + i, new_str(i as u32))).collect();
+                rows.extend(reuse);
+                b.push(Op::Insert { table: "P".into(), rows });
+            }
+            b.push(Op::Observe);
+            b.push(Op::Insert { table: "P".into(), rows: vec![prow(1_000_300, new_str(500))] });
+            b.restart(&mut rng);
+            trace(seed, idx, Init::Foreign(Box::new(spec)), b.ops, &mut rng)
+        }
         // ---- a seeded ordinary history on top of a near-full pool
         _ => {
             let spec = pool_image(POOL_LIMIT - 1 - rng.usize_below(3), false, &mut rng);
@@ -449,7 +470,7 @@ pub fn check(tier: &str, seed: u64) -> i32 {
         let (mt, mv, _) = minimise(f, 12);
         let path = write_replay("C20", &mt, &mv);
         violations += 1;
-        println!("violation: check={} site={} scenario={} message={}", mv.check, mv.site, f.trace.run % 24, mv.message);
+        println!("violation: check={} site={} scenario={} message={}", mv.check, mv.site, f.trace.run % NKINDS, mv.message);
         println!("VIOLATION property=C20 replay={}", path.display());
     }
     report_known(&known, "C20", &mut known_hits);
@@ -458,7 +479,7 @@ pub fn check(tier: &str, seed: u64) -> i32 {
     let mut extra = BTreeMap::new();
     extra.insert(
         "scenario_kinds".to_string(),
-        serde_json::json!("0-2 columns 31/32/33; 3-5 rows 65535/65536/65537 in one batch; 6-7 rows incrementally (with restarts); 8 rows after deletions; 9-16 string pool at L-1/L with two-byte references (insert, batch, delete-then-insert, update, create_table, restart in between); 17 three-byte references; 18-19 table/column name lengths; 20 stream name lengths; 21 string widths 254/255/256; 22 16-bit refcount saturation; 23 seeded history on a near-full pool; 24 full pool plus a string with a saturated refcount; 25 one row needing two entries when one is free; 26 _Validation at its own 65,536-row limit"),
+        serde_json::json!("0-2 columns 31/32/33; 3-5 rows 65535/65536/65537 in one batch; 6-7 rows incrementally (with restarts); 8 rows after deletions; 9-16 string pool at L-1/L with two-byte references (insert, batch, delete-then-insert, update, create_table, restart in between); 17 three-byte references; 18-19 table/column name lengths; 20 stream name lengths; 21 string widths 254/255/256; 22 16-bit refcount saturation; 23 seeded history on a near-full pool; 24 full pool plus a string with a saturated refcount; 25 one row needing two entries when one is free; 26 _Validation at its own 65,536-row limit; 27 full pool, freed slots, existing strings re-used before new ones"),
     );
     extra.insert("scenarios_per_kind".to_string(), serde_json::json!(kinds.into_inner().unwrap().into_iter().map(|(k, v)| (k.to_string(), v)).collect::<BTreeMap<_, _>>()));
     let rep = CheckReport {
